@@ -97,6 +97,19 @@ def run(ck):
   # ---- M ------------------------------------------------------------------------
   ck.mc("DSControl_MC", "DSControl_MC" if quick else "DSControl_MCT", required_actions=["Update"])
   tf_cadence.model_check(ck)
+  # ---- M (unbounded counter): Apalache discharges the inductive invariant of spec/Cadence ------------
+  obligations = [("Init", "IndInv", 0), ("IndInit", "IndInv", 1), ("IndInit", "RootNotAhead", 0)]
+  done = 0
+  for init, inv, length in obligations:
+    verdict, text = core.apalache("Cadence", init=init, inv=inv, length=length, cinit="ConstInit", work=ck.work)
+    if verdict != "ok":
+      raise core.MachineryError(f"Apalache obligation {init} => {inv} (length {length}): {verdict}\n{text[-1500:]}")
+    done += 1
+  verdict, _ = core.apalache("Cadence", init="IndInit", inv="WrongInv", length=1, cinit="ConstInit", work=ck.work)
+  ck.selftest("M: Apalache refutes a deliberately wrong (off-by-one) closed form", verdict == "violated")
+  ck.cov["apalache_inductive_obligations"] = {"module": "Cadence", "obligations": len(obligations),
+                                              "discharged": done, "constants": "S,P in 1..6, Start in 0..8",
+                                              "counter": "unbounded"}
   # ---- R: Distributed Shampoo -----------------------------------------------------
   beh = ck.gen("DSControl_Gen", "DSControl_Gen" if quick else "DSControl_GenT")
   beh += ck.gen("DSControl_Gen", "DSControl_GenS")
